@@ -9,15 +9,15 @@
 // What the extraction changes (each rewrite must apply exactly once, else the run is UNDECIDED):
 //  R1  Verus compiles a `const` into a function and cannot return a reference from it: the table
 //      is declared by value instead of by reference (indexing is unchanged).
-//@ rewrite FP_TABLE: const FP_TABLE: &\[u64; 256\] = &\[ => const FP_TABLE: [u64; 256] = [
+//@ rewrite FP_TABLE: const FP_TABLE: &\[u64; 256\] = &\[ ==>> const FP_TABLE: [u64; 256] = [
 //  R2  `for &b in data {` (iterator + ref pattern, outside Verus' subset) is desugared into the
 //      equivalent indexed `while`, which is where the loop invariant is attached.
-//@ rewrite WRITE: for &b in data \{ => let mut i: usize = 0;\n\t\twhile i < data.len()\n\t\t\tinvariant i <= data.len(), self.result == fold(old(self).result, data@.subrange(0, i as int)),\n\t\t\tdecreases data.len() - i,\n\t\t{\n\t\t\tlet b = data[i];\n\t\t\tproof { lemma_fold_snoc(old(self).result, data@, i as int); lemma_index_in_range(self.result, b); }
+//@ rewrite WRITE: for &b in data \{ ==>> let mut i: usize = 0;\n\t\twhile i < data.len()\n\t\t\tinvariant i <= data.len(), self.result == fold(old(self).result, data@.subrange(0, i as int)),\n\t\t\tdecreases data.len() - i,\n\t\t{\n\t\t\tlet b = data[i];\n\t\t\tproof { lemma_fold_snoc(old(self).result, data@, i as int); lemma_index_in_range(self.result, b); }
 //  R3  the loop counter increment is appended to the (single-statement) loop body, and a proof
 //      hint (ghost code, erased) follows the loop.
-//@ rewrite WRITE: (as usize\];)(\s*\}) => \1\n\t\t\ti = i + 1;\2\n\t\tproof { assert(data@.subrange(0, data.len() as int) =~= data@); }
+//@ rewrite WRITE: (as usize\];)(\s*\}) ==>> \1\n\t\t\ti = i + 1;\2\n\t\tproof { assert(data@.subrange(0, data.len() as int) =~= data@); }
 //  R4  the contract itself (requires/ensures) is attached to the signature.
-//@ rewrite WRITE: (fn write\(&mut self, data: &\[u8\]\)) => \1\n\t\tensures final(self).result == fold(old(self).result, data@),
+//@ rewrite WRITE: (fn write\(&mut self, data: &\[u8\]\)) ==>> \1\n\t\tensures final(self).result == fold(old(self).result, data@),
 //      (`finish` = u64::to_le_bytes is outside Verus' std model; it is the Kani obligation c08_rabin_init_finish.)
 // Nothing else is dropped or edited: the table entries, the constants, the struct and the loop
 // body are the repository's text.
